@@ -6,6 +6,14 @@ props = [json.loads(l) for l in open(os.path.join(V, 'properties.jsonl'))]
 
 # id -> (level, engine, technique, level text, level note, design_ref)
 CHECKS = {
+ 'C04': ('exploration', 'E2-seq', 'bounded-exhaustive product over small trees / key lists / configurations through the real upload and download code, reference-key and byte-for-byte oracles',
+         'All subsets of <=4 (quick 3) paths from an 8-path universe (nested, spaces, unicode, dots, generated-path decoys) x rotated size/content assignments x leaf sizes x concurrency x entries-per-index-file; every subset predicate and every single-file download per bundle; all key lists of length <=3 over {a,b,missing} x skip-missing; index-file boundary counts via the public API.',
+         'Sizes/contents are assigned by rotation (every file sees every variant) rather than a full per-file product; blob, metadata stores are the reference store; localfs on a rooted MemMapFs.',
+         'DESIGN.md §3 C04'),
+ 'C05': ('exploration', 'E2-seq', 'exhaustive enumeration of all ordered pairs of trees through the real Diff and Update, map-model and fresh-download differential oracles',
+         'All 729 ordered pairs of the 27 trees over {p,q,d/r} x {absent,c1,c2}: diff compared with the set computed from the maps (archive-archive and local-archive), Update compared byte-for-byte (data and .datamon metadata) with a fresh download of the target, on a map store and on localfs.',
+         'Entries per index file = public default; 3 paths, 2 contents.',
+         'DESIGN.md §3 C05'),
  'C16': ('model_checking', 'E2-seq + E1-sched', 'explicit enumeration of all store states over a 7-key universe with full observer battery and all single-op transitions against a map model (OsFs + rooted MemMapFs); stateless DFS over all interleavings of concurrent exclusive Puts at afero-call granularity',
          'All 3^7 (quick 3^5) states x every Get/Has/GetAttr/Keys/KeysPrefix (7 prefixes x 2 delimiters x every page size) and every Put/Delete/abandoned-listing transition on both backends; all interleavings of 2..3 exclusive writers (WriterTo and piped sources, retry on/off).',
          'Key universe avoids file/directory clashes; afero MemMapFs is rooted with BasePathFs like the shipped configuration; real kernel file-system races below afero are out of scope.',
